@@ -29,11 +29,12 @@ type RunResult struct {
 	CaseTok Tok   // full token sent to the model
 	Ops     []Tok // ops with oracle fields filled
 	Obs     []Tok // implementation observations
+	Orig    []Tok // ops as given (before the machine filled in oracle fields)
 }
 
 func RunImpl(m Machine, c *Case) *RunResult {
 	m.Reset()
-	r := &RunResult{}
+	r := &RunResult{Orig: c.Ops}
 	for _, op := range c.Ops {
 		o2, obs := m.Exec(op)
 		r.Ops = append(r.Ops, o2)
@@ -75,6 +76,9 @@ type MonViolation struct {
 // Monitor is the executable form of the property text, evaluated on the implementation's own
 // observations (no model involved).
 type Monitor func(ops []Tok, obs []Tok) []MonViolation
+
+// OMonitor additionally sees the ops as given (instance numbers instead of key names).
+type OMonitor func(orig, ops, obs []Tok) []MonViolation
 
 type Finding struct {
 	Kind    string `json:"kind"` // "correspondence" | "monitor"
@@ -158,6 +162,7 @@ type Checker struct {
 	M        Machine
 	Model    *ModelDriver
 	Monitors []Monitor
+	OMonitors []OMonitor
 	// KnownSigs: monitor signatures of recorded findings (still reported, but as known).
 	Findings []Finding
 	Known    map[string]int // sig -> hits (for monitor findings listed as known)
@@ -206,6 +211,9 @@ func (c *Checker) monitor(r *RunResult) []MonViolation {
 	var out []MonViolation
 	for _, m := range c.Monitors {
 		out = append(out, m(r.Ops, r.Obs)...)
+	}
+	for _, m := range c.OMonitors {
+		out = append(out, m(r.Orig, r.Ops, r.Obs)...)
 	}
 	return out
 }
